@@ -242,42 +242,44 @@ def r2(ctx):
             ctx.violation(R, 'castle_rights::CastleRights::to_string', 'castling letter table is %s (upper-case for White: %s)' % (table, upper_white), where(s.body))
     # scanner castling decision tables
     for col, (k, q) in (('White', ('K', 'Q')), ('Black', ('k', 'q'))):
-        rows = {}
+        # which right is stored for each (has king-side letter, has queen-side letter): every store into the colour's slot is
+        # evaluated -- its reaching condition and its value -- under the four valuations of the two `contains` tests
+        want = {(True, True): 'Both', (True, False): 'KingSide', (False, True): 'QueenSide', (False, False): 'NoRights'}
+        bad = []
+        foreign = set()
+        slot_stores = []
         for st in sc.stores:
             if st.get('local'):
                 continue
-            t = st['target']
-            path = t[2]
+            path = st['target'][2]
             if len(path) < 2 or path[-2] != ('f', 'castle_rights'):
                 continue
             idx = norm(il_fold(ctx, path[-1][1]))
-            want_idx = ('int', ctx.facts().enum_discr(COLOR, col), 'usize')
-            if idx != want_idx:
-                continue
-            v = norm(st['value'])
-            conds = {}
-            for g in guards(sc, st['blk'], transitive=True):
-                if g['cond'] is None:
-                    continue
-                cn = norm(g['cond'])
+            if idx == ('int', ctx.facts().enum_discr(COLOR, col), 'usize'):
+                slot_stores.append(st)
+        for (hk, hq), right in want.items():
+            def decide(c_, vals, hk=hk, hq=hq):
+                cn = norm(c_)
                 if cn[0] == 'call' and cn[1] == 'core::str::<impl str>::contains' and cn[2][1][0] == 'str':
-                    conds[cn[2][1][1]] = truth(g)
-            rows[v[2] if v[0] == 'enum' else sh(v)] = conds
-        # evaluate: which right is stored for each (has k, has q)
-        want = {'Both': (True, True), 'KingSide': (True, False), 'QueenSide': (False, True), 'NoRights': (False, False)}
-        bad = []
-        for right, (hk, hq) in want.items():
-            cnd = rows.get(right)
-            if cnd is None:
-                bad.append('%s never stored' % right)
-                continue
-            for letter, val in ((k, hk), (q, hq)):
-                if letter in cnd and cnd[letter] != val:
-                    bad.append('%s stored when contains(%s) is %s' % (right, letter, cnd[letter]))
-            extra = set(cnd) - {k, q}
-            if extra:
-                bad.append('%s depends on letters %s' % (right, sorted(extra)))
-        # completeness: each right must pin both letters, except via else-chains (earlier tests false)
+                    lit = cn[2][1][1]
+                    if lit == k:
+                        return as_bool(hk, vals)
+                    if lit == q:
+                        return as_bool(hq, vals)
+                    foreign.add(lit)
+                    return None
+                return None
+            stored = set()
+            for st in slot_stores:
+                if not any(conj_possible(conj, decide) for conj in dnf(sc, st['blk'])):
+                    continue
+                for leaf in eval_tree(norm(st['value']), decide):
+                    stored.add(leaf[2] if leaf[0] == 'enum' else sh(leaf, 60))
+            if stored != {right}:
+                bad.append('with %s%s present the stored right is %s, expected %s' % (
+                    k if hk else 'no ' + k, ' and ' + (q if hq else 'no ' + q), sorted(stored) or 'never stored', right))
+        if foreign - {k, q, 'K', 'Q', 'k', 'q'}:
+            bad.append('depends on letters %s' % sorted(foreign - {k, q}))
         if bad:
             ctx.violation(R, SCAN + ':castling:' + col, '%s castling scan wrong: %s' % (col, '; '.join(bad)), where(sc.body))
         else:
